@@ -29,7 +29,8 @@ GROUPS = [
 TRUSTED = (
     "translator tools/translate_staticfit.py (fail-closed ast whitelist: elementwise + - * / between arrays on the same "
     "named axis (table / grid / phonon-file volumes), A[n], calculate_eulerian_strain, numpy.polyfit / polyval / "
-    "gradient, polynomial_least_square_fitting, _from_gpa, re-assignable locals) - the library calls are ORACLES "
+    "gradient, polynomial_least_square_fitting, _from_gpa, numpy.add/subtract/multiply/divide/negative as the operators, "
+    "re-assignable locals and tuple assignment with all right-hand sides evaluated first) - the library calls are ORACLES "
     "(record StaticFitTieBase.oracles), numpy.polyval / calculate_eulerian_strain / _from_gpa / numpy.gradient are "
     "instantiated with the model's polyval / eulerian / from_gpa / s_grad; only pattern-checked (glue): the property "
     "bodies FullThermalElasticModulus.volumes / v_array, Calculator.__getattr__ forwarding v_array to "
